@@ -515,15 +515,26 @@ def check_c20(run):
         nontrivial_keys=("serde_ok_path", "serde_error_path"))
 
 def gen_par_scripts(tier, seed, variant):
+    """maps (split trees, par_* / from_par_iter / par_eq), two-set histories (spar_*) and HashTable
+    histories over every element layout (tpar_*)"""
     rng = random.Random(seed)
-    n = 30 if tier == "quick" else 100
-    return "".join(gen_par.make_script(rng, f"p{seed}_{i}", exhaustive_trees=(tier == "thorough")) for i in range(n))
+    nm, ns, nt = (24, 14, 18) if tier == "quick" else (80, 50, 60)
+    out = [gen_par.make_script(rng, f"p{seed}_{i}", exhaustive_trees=(tier == "thorough")) for i in range(nm)]
+    out += [gen_par.make_set_script(rng, f"ps{seed}_{i}") for i in range(ns)]
+    out += [gen_par.make_table_script(rng, f"pt{seed}_{i}") for i in range(nt)]
+    # the size classes that must always be present: below one group, and hundreds of elements
+    out += [gen_par.make_table_script(rng, f"ptx{seed}_{i}", kind=k, size=z) for i, (k, z) in enumerate(
+        [("table-drop", 1), ("table-drop", 2), ("table-plain", 3), ("table-drop", 300), ("table-200", 250)])]
+    return "".join(out)
+
+C19_OPS = ("par_", "into_par_iter", "from_par_iter", "spar_", "sinto_par_iter", "tpar_", "tinto_par_iter")
 
 def check_c19(run):
     return script_property(
         run, gen_par_scripts,
-        relevant=lambda f: f.kind == "CRASH" or (f.kind in ("A-FAIL", "H-FAIL", "B-FAIL") and op_in(f, ("par_", "into_par_iter"))),
-        rule="HashMap histories with rayon operations: par_split <decisions> drives the real RawIterRange::split along caller-chosen split trees (random depth up to 24 decisions; all trees up to 4 decisions in the thorough tier) and every leaf's bucket list must equal the extracted model's (level C) and the leaves must partition the stored elements (level A); par_iter / par_keys / par_values / par_iter_mut / par_values_mut / into_par_iter / par_drain with consumers that stop after k elements / par_extend on pools of 1..64 threads, judged as multisets against the reference map, with the registry checking that every element is delivered or dropped exactly once",
+        relevant=lambda f: f.kind == "CRASH" or (f.kind in ("A-FAIL", "H-FAIL", "B-FAIL") and op_in(f, C19_OPS))
+                           or (f.kind == "H-FAIL" and any(k in f.text for k in ("were never dropped", "blocks still allocated", "double drops"))),
+        rule="HashMap, HashSet and HashTable histories with rayon operations on pools of 1, 2, 3, 4, 8, 16, 33 and 64 threads. Maps: par_split <decisions> drives the real RawIterRange::split along caller-chosen split trees (random depth up to 24 decisions; all trees up to 4 decisions in the thorough tier) and every leaf's bucket list must equal the extracted model's (level C) and the leaves must partition the stored elements (level A); par_iter / par_keys / par_values / par_iter_mut / par_values_mut / into_par_iter / par_drain with consumers that stop after k elements / par_extend, judged as multisets against the reference map; from_par_iter against the sequential from_iter / extend and `first key object, last value per key`; par_eq against == and against the mathematical equality of the two reference maps (clones with the same and with a different layout, maps differing in one value or one key). Sets (two sets A, B with different histories): spar_iter, sinto_par_iter, spar_drain with a consumer accepting at most k elements (k from 0 to beyond the size), spar_extend (and from_par_iter) against the sequential extend, par_union / par_intersection / par_difference / par_symmetric_difference against the sequential iterators and the mathematical sets, par_is_subset / par_is_superset / par_is_disjoint / par_eq against the sequential predicates and the reference sets. Tables (element sizes 0, 1, 2, 24, 32, 200, alignment up to 64; 1-3 elements, about one group, hundreds; tombstones from insert-then-remove; duplicates of equal ids): tpar_iter, tpar_iter_mut (every element visited once and updated), tinto_par_iter, tpar_drain with early-stopping consumers. After a parallel drain the collection must be empty, keep its allocation and satisfy the invariant (level B), and the histories continue on it; the registry checks after every step that every element was delivered or dropped exactly once, and at the end that nothing is alive or allocated",
         nontrivial_keys=("split_leaves_2", "split_leaves_3", "split_leaves_4", "split_leaves_5", "split_leaves_6", "split_leaves_7", "split_leaves_8", "split_leaves_9"),
         partial_note="thread interleavings, rayon's contract that every producer is folded exactly once, and data-race freedom are runtime facts outside the model; what is proved is that every split tree partitions the buckets and that drain conserves elements, for all trees and all stop positions")
 
